@@ -1567,6 +1567,75 @@ def event_store_units():
 ALL.append(event_store_units)
 
 
+# ---- C04 / C07: retrieve_stage pairs a stage row (its version) with task rows that are NOT OLDER than that row
+def _retrieve_stage_run(ctx):
+    I = ctx.I
+    conn = SQL.new_connection(I)
+    I.st.ghost["the_conn"] = conn
+    ci = I.index.find_class("SqliteWorkflowStore")
+    oid = I.st.new_id()
+    rec = ObjRec(ci.name, ci, {}, {"name": "store", "symbolic": True})
+    I.st.objs[oid] = rec
+    rec.fields["connection_string"] = I.ops.lit("sqlite:///x.db")
+    sid = SStr(z3.Int("stage_id"))
+    ctx.args["stage_id"] = sid
+    I.st.ghost["stage_id_arg"] = sid
+    return I.call(I.getattr(SObj(oid), "retrieve_stage"), [sid], {})
+
+
+def _retrieve_stage_post(ctx):
+    """The version a handler later presents to the compare-and-swap comes from the stage row; the task list it decides on
+    ("no tasks yet: a zombie, plan again") must be at least as fresh as that row.  Statements of one connection are not one
+    snapshot, so the stage row is read FIRST and the task rows AFTER it; the task query selects exactly the rows of this stage;
+    a missing stage row raises ValueError."""
+    I = ctx.I
+    effs = [e for e in ctx.st.effects if e.kind == "sql"]
+    st_sel = [n for n, e in enumerate(effs) if e.data["kind"] == "select" and e.data["table"] == "stage_executions"]
+    tk_sel = [n for n, e in enumerate(effs) if e.data["kind"] == "select" and e.data["table"] == "task_executions"]
+    goals = [("reads-only", z3.BoolVal(all(e.data["kind"] == "select" for e in effs)))]
+    if ctx.exc is not None:
+        names = I.exc_class_names(ctx.exc)
+        return goals + [("only-not-found-escapes", z3.BoolVal("ValueError" in names or "JSONDecodeError" in names or "KeyError" in names))]
+    goals.append(("stage-row-read", z3.BoolVal(len(st_sel) >= 1)))
+    goals.append(("task-rows-read-once", z3.BoolVal(len(tk_sel) == 1)))
+    if st_sel and tk_sel:
+        goals.append(("task-rows-read-after-the-stage-row", z3.BoolVal(tk_sel[0] > st_sel[0])))
+        fa = [e for e in ctx.st.effects if e.kind == "sql_fetchall" and e.data["table"] == "task_executions"]
+        if fa:
+            tab, sat = fa[0].data["tab"], fa[0].data["sat"]
+            r = fresh_int("anytask")
+            notnull = TRUE if "stage_id" in tab.schema.notnull else z3.Not(z3.Select(tab.nulls["stage_id"], r))
+            goals.append(("task-query-selects-this-stages-tasks", sat(r) == z3.And(z3.Select(tab.exists, r), notnull,
+                                                                                     z3.Select(tab.cols["stage_id"], r) == ctx.args["stage_id"].t)))
+        else:
+            goals.append(("task-query-read-completely", FALSE))
+    return goals
+
+
+def retrieve_stage_units():
+    reg = sql_registry()
+    reg.contracts["*._get_connection"] = lambda I, a, k: I.st.ghost["the_conn"]
+    reg.contracts["*.get_upstream_stages"] = lambda I, a, k: I.ops.new_conc_list([])     # dynamic SQL: assumed contracts elsewhere; not
+    reg.contracts["*.get_synthetic_stages"] = lambda I, a, k: I.ops.new_conc_list([])    # what this unit is about
+    # the row converters have their own round-trip units; here a row becomes an arbitrary object of the right class
+    def row_to_stage(I, a, k):
+        st_ = T.new_symbolic(I, "StageExecution", f"stage{T._counter(I, 'rs_n')}")
+        I.st.objs[st_.oid].fields["tasks"] = I.ops.new_conc_list([])  # as the real converter: tasks are loaded by the caller
+        I.st.objs[st_.oid].fields["id"] = I.st.ghost["stage_id_arg"]  # id = row["id"], the key the row was selected by (round-trip unit)
+        return st_
+
+    reg.contracts[P + "converters:row_to_stage"] = row_to_stage
+    reg.contracts[P + "converters:row_to_task"] = lambda I, a, k: T.new_symbolic(I, "TaskExecution", f"task{T._counter(I, 'rt_n')}")
+    reg.contracts[P + "converters:row_to_execution"] = lambda I, a, k: T.new_symbolic(I, "Workflow", f"execution{T._counter(I, 're_n')}")
+    return [Unit(prop="*", name="L1/SqliteStageOpsMixin.retrieve_stage", func=P + "store.stage_ops:SqliteStageOpsMixin.retrieve_stage", params=[],
+                 names=STATUS_NAMES, registry=reg, replayable=False, run=_retrieve_stage_run,
+                 obligations=[Obl("C04/read-order/retrieve_stage", _retrieve_stage_post, when="any"),
+                              Obl("C07/read-order/retrieve_stage", _retrieve_stage_post, when="any")])]
+
+
+ALL.append(retrieve_stage_units)
+
+
 # ---- upsert_task (C07 G-task) and the task row round trip (C19)
 TASK_FIELDS = ["id", "name", "implementing_class", "status", "start_time", "end_time", "stage_start", "stage_end", "loop_start", "loop_end",
                "task_exception_details"]
